@@ -197,7 +197,8 @@ pub fn is_valid_path(path: &str) -> bool {
                 separators = 0;
             }
             // The middle of an identifier
-            c if is_xid_continue(c) => (),
+            // A single `:` isn't a separator, so it can't be followed by one
+            c if separators != 1 && is_xid_continue(c) => (),
             // An invalid character
             _ => return false,
         }
